@@ -29,6 +29,12 @@ def design(ctx):
         vlib.tlc_design(ctx, M, "MC_Store_NoLock.cfg", timeout=900, expect_violation="SizeRecOK")
         if thorough:
             vlib.tlc_design(ctx, M, "MC_Store_NoLockMem.cfg", timeout=1800, expect_violation="SizeMemOK")
+    if p in ("C05", "C17"):
+        # the usage accounting in isolation with item sizes over ALL naturals (StoreAcct.tla): inductive invariant checked
+        # symbolically by Apalache from an arbitrary state, negative control = the split batch of seeds C17-1 / C17-3
+        vlib.apalache(ctx, "MC_StoreAcct", "MC_StoreAcct.cfg", "Init", "IndInv", 0)
+        vlib.apalache(ctx, "MC_StoreAcct", "MC_StoreAcct.cfg", "IndInit", "IndInv", 1)
+        vlib.apalache(ctx, "MC_StoreAcct", "MC_StoreAcct_DevSplit.cfg", "IndInit", "IndInv", 1, expect_error=True)
     if p == "C06":
         vlib.tlc_design(ctx, M, "MC_Store_LE.cfg", timeout=600, expect_violation="RetainedWithinRadius")
         if thorough:
